@@ -218,6 +218,7 @@ func (e *Exec) doSelect(g *Goroutine, cases []selCase, hasDefault bool, in ssa.I
 		if c.ctx != nil && c.ctx.timeout {
 			c.ctx.deadline = true
 			e.cancelCtx(c.ctx)
+			e.dlPassed(c.ctx.dl)
 			return k, nil, false, false
 		}
 		h, hi := e.partner(g, c, true)
